@@ -1,14 +1,17 @@
 package c20
 
 import (
+	"bufio"
 	"bytes"
 	"encoding/json"
 	"fmt"
+	"net"
 	"os"
 	"sort"
 	"strings"
 	"sync"
 	"testing"
+	"time"
 
 	"github.com/cnotch/xlog"
 	"pgregory.net/rapid"
@@ -74,6 +77,14 @@ func classify(sc *scenario, res *result) {
 		} else {
 			evid.Class("registered only after the request returned")
 		}
+	}
+	if res.gluedPlay > 0 {
+		evid.Class(fmt.Sprintf("frames shared the PLAY answer's write: %s", bucket(res.gluedPlay)))
+		nt = true
+	}
+	if res.gluedKA > 0 {
+		evid.Class(fmt.Sprintf("frames shared a keep-alive answer's write: %s", bucket(res.gluedKA)))
+		nt = true
 	}
 	if nt {
 		evid.Nontrivial(evid.FP(sc.key()))
@@ -176,6 +187,16 @@ func runBatch(t *testing.T, name string, scs []*scenario) {
 	report(t, name, failed, msgs)
 }
 
+func bucket(n int) string {
+	switch {
+	case n <= 1:
+		return "1"
+	case n <= 9:
+		return "2..9"
+	}
+	return "10+"
+}
+
 func firstLine(s string) string {
 	if i := strings.IndexByte(s, '\n'); i >= 0 {
 		return s[:i]
@@ -241,15 +262,15 @@ func TestPlayEndings(t *testing.T) {
 // TestEndToEnd: the enumerated scenarios again, requested through the
 // in-process server by an RTSP player (OPTIONS, DESCRIBE, SETUP, PLAY; checks the
 // interleaved frames it receives), an HTTP-FLV GET and an HLS playlist GET. The
-// quick tier takes every third scenario per mode (each pair is met in one of
-// the three modes); HLS takes the refusing cameras only, because a playlist
+// quick tier takes every fourth scenario per mode (three of four pairs are met
+// in one of the three modes; thorough takes all); HLS takes the refusing cameras only, because a playlist
 // request for a live stream waits for three segments.
 func TestEndToEnd(t *testing.T) {
 	var scs []*scenario
 	all := append(enumeration(), playEndings()...)
 	for i, sc := range all {
 		for m, mode := range []string{"rtsp", "flv", "hls"} {
-			if !evid.Thorough() && i%3 != m {
+			if !evid.Thorough() && i%4 != m {
 				continue
 			}
 			e, _, _ := sc.expect()
@@ -270,6 +291,56 @@ func TestEndToEnd(t *testing.T) {
 		evid.Class("requested through " + sc.Mode)
 	}
 	runBatch(t, "end-to-end", scs)
+}
+
+// coalesced builds the scenarios in which the camera writes several messages
+// back to back in one TCP segment: the PLAY answer together with the first k
+// frames, and a keep-alive answer together with the next k frames.
+func coalesced() []*scenario {
+	var out []*scenario
+	i := 0
+	for _, k := range []int{1, 5, 40} {
+		for _, challenge := range []string{"none", "digest@DESCRIBE", "basic@OPTIONS", "digest@PLAY"} {
+			for _, audio := range []bool{false, true} {
+				mk := func() *scenario {
+					sc := &scenario{Audio: audio, Creds: "right", User: "admin", Pass: "pw", BigFrames: true, End: int(fakecam.AfterEOF), Mode: "direct", SessionTimeout: audio}
+					switch challenge {
+					case "digest@DESCRIBE":
+						sc.Steps[fakecam.Describe] = fakecam.Behaviour{Kind: fakecam.Digest401, N: 1}
+					case "basic@OPTIONS":
+						sc.Steps[fakecam.Options] = fakecam.Behaviour{Kind: fakecam.Basic401, N: 1}
+					case "digest@PLAY": // the challenge's answer is followed by the real answer plus frames
+						sc.Steps[fakecam.Play] = fakecam.Behaviour{Kind: fakecam.Digest401, N: 1}
+					}
+					return sc
+				}
+				// the PLAY answer and the first k frames in one write
+				a := mk()
+				a.GluePlay, a.Initial, a.Consumers, a.Live = k, k+i%3, 1, 4
+				a.Mode = []string{"direct", "direct", "rtsp", "flv"}[i%4]
+				a.Name = fmt.Sprintf("PLAY answer + %d frames in one write, challenge %s", k, challenge)
+				// a keep-alive answer and the next k frames in one write, twice
+				b := mk()
+				b.GlueKA, b.KAGlues, b.Initial, b.Live, b.Paced = k, 2, 3, 4, true
+				b.GluePlay = []int{0, 2}[i%2]
+				b.Name = fmt.Sprintf("keep-alive answer + %d frames in one write, challenge %s", k, challenge)
+				out = append(out, a, b)
+				i++
+			}
+		}
+	}
+	return out
+}
+
+// TestCoalescedWrites: a camera that puts its PLAY answer (or a keep-alive
+// answer) and the following frames into one TCP write. Every frame — including
+// those that shared the segment with the answer — reaches a consumer that is
+// attached before the play loop starts, in order; the stream's byte counter
+// agrees; the pull stays up.
+func TestCoalescedWrites(t *testing.T) {
+	scs := coalesced()
+	evid.ClassN("enumerated coalesced-write scenarios", int64(len(scs)))
+	runBatch(t, "coalesced", scs)
 }
 
 // TestReplayFile re-runs one saved case (a scenario, a sequential-requests case
@@ -439,6 +510,19 @@ func genScenario(t *rapid.T) *scenario {
 	}
 	sc.AutoFinish = fakecam.After(sc.End) != fakecam.Continue && rapid.IntRange(0, 4).Draw(t, "auto") == 0
 	sc.FollowUp = rapid.IntRange(0, 2).Draw(t, "followUp") == 0
+	// several messages in one TCP write
+	if rapid.IntRange(0, 2).Draw(t, "gluePlay?") == 0 {
+		sc.GluePlay = rapid.SampledFrom([]int{1, 2, 5, 12, 40}).Draw(t, "gluePlay")
+		if sc.Initial < sc.GluePlay {
+			sc.Initial = sc.GluePlay
+		}
+	}
+	if sc.Mode == "direct" && rapid.IntRange(0, 4).Draw(t, "glueKA?") == 0 {
+		sc.GlueKA = rapid.SampledFrom([]int{1, 3, 5, 40}).Draw(t, "glueKA")
+		sc.KAGlues = rapid.IntRange(1, 3).Draw(t, "kaGlues")
+		sc.Consumers, sc.Paced = 0, true // the from-start consumer judges; live frames paced so that keep-alives flow
+		sc.Live = rapid.IntRange(2, 4).Draw(t, "glueLive")
+	}
 	// the programme: generated access units in every legal packetisation
 	cfg := esgen.Config{Codec: esgen.H264, MaxNAL: 1200, Tags: true, MaxAUs: 8, MaxGOP: 4, MaxUnits: 24, RealParamSets: true}
 	aus := cfg.DrawSequence(t)
@@ -452,7 +536,7 @@ func genScenario(t *rapid.T) *scenario {
 	merge := rapid.SliceOfN(rapid.Bool(), 64, 64).Draw(t, "merge")
 	sc.frames = fakecam.FramesOf(vs, as, func(i int) bool { return merge[i%len(merge)] })
 	// generated programmes are short; deterministic frames follow as material for live / push / feed
-	tail := 70
+	tail := 70 + sc.GluePlay + sc.GlueKA*sc.KAGlues
 	if sc.Mode == "flv" {
 		tail = 800
 	}
@@ -545,4 +629,81 @@ func TestFixedWitnesses(t *testing.T) {
 	s3.URLShape = "nopath"
 	scs = append(scs, s1, s2, s3)
 	runBatch(t, "fixed-witness", scs)
+}
+
+// TestRequesterClassification: the RTSP requester tells a connection that ends
+// (FIN / RST, also in the middle of an answer) from output that is no RTSP, and
+// a close is acceptable only for scenarios in which the camera deviates or ends
+// the play phase by itself. Deterministic: the "server" is a stub.
+func TestRequesterClassification(t *testing.T) {
+	stub := func(onDescribe func(nc net.Conn)) string {
+		ln, err := net.Listen("tcp4", "127.0.0.1:0")
+		if err != nil {
+			t.Fatal(err)
+		}
+		go func() {
+			defer ln.Close()
+			nc, err := ln.Accept()
+			if err != nil {
+				return
+			}
+			defer nc.Close()
+			br := bufio.NewReader(nc)
+			n := 0
+			for {
+				line, err := br.ReadString('\n')
+				if err != nil {
+					return
+				}
+				if line != "\r\n" {
+					continue
+				}
+				n++
+				if n <= 2 { // the requester's own OPTIONS and Play's OPTIONS
+					fmt.Fprintf(nc, "RTSP/1.0 200 OK\r\nCSeq: %d\r\n\r\n", n)
+					continue
+				}
+				onDescribe(nc)
+				return
+			}
+		}()
+		return ln.Addr().String()
+	}
+	cases := []struct {
+		name string
+		do   func(nc net.Conn)
+		want string
+	}{
+		{"FIN after 9 bytes of the answer", func(nc net.Conn) { nc.Write([]byte("RTSP/1.0 ")) }, "closed"},
+		{"FIN before any byte", func(nc net.Conn) {}, "closed"},
+		{"RST inside the header block", func(nc net.Conn) {
+			nc.Write([]byte("RTSP/1.0 200 OK\r\nCSeq: 3\r\nContent-Le"))
+			nc.(*net.TCPConn).SetLinger(0)
+		}, "closed"},
+		{"404", func(nc net.Conn) { nc.Write([]byte("RTSP/1.0 404 Not Found\r\nCSeq: 3\r\n\r\n")) }, "nil"},
+		{"garbage", func(nc net.Conn) {
+			nc.Write([]byte("\x00\x01 this is no RTSP\r\n\r\n"))
+			time.Sleep(50 * time.Millisecond)
+		}, "panic"},
+		{"500", func(nc net.Conn) { nc.Write([]byte("RTSP/1.0 500 Internal Server Error\r\nCSeq: 3\r\n\r\n")) }, "panic"},
+	}
+	for _, c := range cases {
+		q := &rtspRequester{addr: stub(c.do)}
+		got, _, detail := q.request("/c20/classify", func() {})
+		q.release()
+		evid.Eval(1)
+		if got != c.want {
+			t.Fatalf("%s: classified as %q (%s), want %q", c.name, got, detail, c.want)
+		}
+	}
+	// acceptance
+	healthy := &scenario{Audio: true, Creds: "right", End: int(fakecam.AfterEOF)}
+	endsAtOnce := &scenario{Audio: true, Creds: "right", End: int(fakecam.AfterEOF), AutoFinish: true}
+	deviates := &scenario{Audio: true, Creds: "right"}
+	deviates.Steps[fakecam.Describe] = fakecam.Behaviour{Kind: fakecam.RST}
+	challenged := &scenario{Audio: true, Creds: "right"}
+	challenged.Steps[fakecam.Describe] = fakecam.Behaviour{Kind: fakecam.Digest401, N: 1}
+	if healthy.closeAcceptable() || challenged.closeAcceptable() || !endsAtOnce.closeAcceptable() || !deviates.closeAcceptable() {
+		t.Fatalf("closeAcceptable: healthy=%v challenged=%v endsAtOnce=%v deviates=%v", healthy.closeAcceptable(), challenged.closeAcceptable(), endsAtOnce.closeAcceptable(), deviates.closeAcceptable())
+	}
 }
